@@ -53,7 +53,7 @@ theorem C10_iff_difference_none {a b : BoundSet} (ha : a.WF) (hb : b.WF) :
       | .panic => none
       | .none => some none
       | .some l => some (if l.isEmpty then none else some l) := by
-    simp only [Range.difference, diffPieces, diffAlt, diffStep, List.foldr_cons, List.foldr_nil,
+    simp only [Range.difference, diffPieces, diffPiecesF, diffAlt, diffStep, diffStepF, List.foldr_cons, List.foldr_nil,
       List.foldl_cons, List.foldl_nil, Option.bind_some]
     cases (BoundSet.mk (up q') (lo p')).difference ⟨up q, lo p⟩ <;> simp
   rw [hd]
